@@ -26,7 +26,7 @@ Delimit Scope string_scope with string.
 From RG Require Import Base.Str Base.Dec Base.Num Model.Recipe Model.NumFmt Model.LineCol
   Model.Brace Model.Markdown Spec.MarkdownSpec Gen.GenBrace.
 From RG Require Import Proofs.Replace Proofs.MarkdownText Proofs.MarkdownSubst
-  Proofs.MarkdownCompile Proofs.MarkdownRender.
+  Proofs.MarkdownCompile Proofs.MarkdownRender Proofs.MarkdownBrace.
 Import ListNotations.
 
 (** ** Pins: the regular expressions and constants the hand-written model was built for *)
@@ -193,3 +193,44 @@ Example C13_render_ex :
        ++ s "<div class=""rg-recipe-block""><table id=""recipe-t""></table></div><pre>x</pre>"
        ++ s "<div class=""rg-recipe-block""><table id=""recipe2-t""></table></div><h1>Other for 3</h1>" ++ [10%N]).
 Proof. vm_compute. reflexivity. Qed.
+
+(** ** Brace expressions (C03, Markdown-prose clause): exactly the numbers are scaled
+
+    [tokens_all src] are the steps of [any_part_pattern.finditer(src)] (Model/Brace.v), including
+    the characters it steps over.  (1) The steps partition the source text: nothing is lost,
+    duplicated or reordered.  (2) A step yields a number exactly when it is a fraction or decimal
+    token; an escape yields the escaped character, any other character itself - everything else
+    verbatim.  (3) Rendering at [k] multiplies exactly those numbers ([nmul]: Python's [*] on int /
+    Fraction / float) and leaves every text part as it is; inside image alt text nothing is scaled. *)
+Theorem C13_brace_tokens_cover : forall src,
+  concat (map atext (tokens_all src)) = src /\ tokens src = real_tokens (tokens_all src).
+Proof. intros src. split; [apply tokens_cover | apply tokens_real]. Qed.
+
+Theorem C13_brace_token_kinds : forall t p, tok_value t = BOk p ->
+  match p with
+  | PNum _ => is_number_token t = true
+  | PStr x => exists c, x = [c] /\ (t = TChr c \/ t = TEsc c)
+  end.
+Proof. exact tok_value_kind. Qed.
+
+Theorem C13_brace_scale : forall alt_escape k src l l',
+  brace_parse src = BOk l -> scale_svs k l = Some l' ->
+  Forall2 (fun p p' => match p, p' with
+                       | PStr x, PStr y => x = y
+                       | PNum v, PNum v' => nmul v k = NOk v'
+                       | _, _ => False
+                       end) l l' /\
+  svs_scale k l = Some l' /\
+  (forall x, render_svs l' = Some x -> spec_brace k src = MOk x) /\
+  spec_alt alt_escape src = match svs_plain l with Some x => MOk (alt_escape x) | None => MErr EFormat end.
+Proof. exact brace_scale. Qed.
+
+Example C13_brace_ex :
+  brace_parse (s "about 1 1/2 or 2.50 \} 10/0 x3") =
+    BOk [PStr (s "about "); PNum (NFrac 3 2); PStr (s " or "); PNum (NFloat 5 (-1)); PStr (s " } ");
+         PNum (NInt 10); PStr (s "/"); PNum (NInt 0); PStr (s " x"); PNum (NInt 3)] /\
+  spec_brace (NInt 2) (s "1 1/2 large") = MOk (s "<span class=""rg-scaled-value"">3</span> large") /\
+  spec_brace (NFrac 1 3) (s "1 1/2 <b>") =
+    MOk (s "<span class=""rg-scaled-value""><sup>1</sup>&frasl;<sub>2</sub></span> &lt;b&gt;") /\
+  find_braces (s "a {2\} b} c {") = [(2%N, s "2\} b")].
+Proof. repeat split; vm_compute; reflexivity. Qed.
